@@ -4,8 +4,98 @@ package fp
 
 // Contracts for rjv (see /verif/DESIGN.md). Comment-only file, compiled only with -tags verif.
 //
+//@ global let isnum(s) = len(s) > 0 && (s[0] == '-' || digit(s[0]))
+//@ global let numfinal(q) = qis(q, "InValue.NumZero@top", "InValue.NumInt@top", "InValue.NumFrac@top", "InValue.NumExp@top")
+//
 //@ func ParseJSONFloatPrefix(data) (f, n, err)
 //@   input data
-//@   trusted safety contract assumed until the fp functions are brought under contract
+//@   sim value limit=10000 init=none
+//@   requires @sim qis(Rq(data, 0), "Before@top") && Rdepth(data, 0) == 0
+//@   ensures @sim [C04,C08,C13] err == nil ==> isnum(data) && accepts(data) && n == endof(data)
+//@   ensures @sim [C04,C08,C13] err != nil && err != errRange ==> !(accepts(data) && isnum(data))
 //@   ensures err == nil ==> 0 <= n && n <= len(data)
+//@   ensures [C13] err == nil ==> isnum(data)
+//@   ensures [C19,C20] ghost_alloc == old(ghost_alloc)
+//
+//@ global let rmant(s, k) = Rnum(s, "mant", k)
+//@ global let rnd(s, k) = Rnum(s, "nd", k)
+//@ global let rdot(s, k) = Rnum(s, "dot", k)
+//@ global let rdp(s, k) = Rnum(s, "dp", k)
+//@ global let rneg(s, k) = Rnum(s, "neg", k)
+//@ global let rev(s, k) = Rnum(s, "ev", k)
+//@ global let resg(s, k) = Rnum(s, "esg", k)
+//@ global let rpoint(s, k, x) = (rdot(s, k) ==> x == rdp(s, k)) && (!rdot(s, k) ==> x == rnd(s, k))
+//@ global let rmin19(s, k, x) = (rnd(s, k) <= 19 ==> x == rnd(s, k)) && (rnd(s, k) > 19 ==> x == 19)
+//
+//@ func readFloat(data) (mantissa, exp, neg, trunc, p, ok)
+//@   input data
+//@   sim value limit=10000 init=none num=1
+//@   ensures @sim [C04] ok ==> mantissa == rmant(data, p) && neg == rneg(data, p) && (trunc <==> rnd(data, p) > 19)
+//@   ensures @sim [C04] ok && mantissa == 0 ==> exp == 0
+//@   ensures @sim [C04] ok && mantissa != 0 && resg(data, p) == 1 ==> (rdot(data, p) ==> rmin19(data, p, rdp(data, p) + rev(data, p) - exp)) && (!rdot(data, p) ==> rmin19(data, p, rnd(data, p) + rev(data, p) - exp))
+//@   ensures @sim [C04] ok && mantissa != 0 && resg(data, p) != 1 ==> (rdot(data, p) ==> rmin19(data, p, rdp(data, p) - rev(data, p) - exp)) && (!rdot(data, p) ==> rmin19(data, p, rnd(data, p) - rev(data, p) - exp))
+//@   ensures @sim [C04] ok ==> resg(data, p) == 1 || resg(data, p) == -1
+//@   loop 1 invariant @sim mantissa == rmant(data, p) && nd == rnd(data, p) && neg == rneg(data, p) && sawdot == rdot(data, p) && (trunc <==> nd > 19)
+//@   loop 1 invariant @sim exp == 0 && 0 <= nd && nd <= p
+//@   loop 1 invariant @sim rmin19(data, p, ndMant) && (sawdot ==> dp == rdp(data, p)) && rev(data, p) == 0 && resg(data, p) == 1
+//@   loop 2 invariant @sim mantissa == rmant(data, p) && neg == rneg(data, p) && (trunc <==> rnd(data, p) > 19) && rmin19(data, p, ndMant) && rpoint(data, p, dp)
+//@   loop 2 invariant @sim exp == 0 && 0 <= e && e <= 100009
+//@   loop 2 invariant @sim e == rev(data, p) && esign == resg(data, p) && (esign == 1 || esign == -1)
+//@   requires @sim qis(Rq(data, 0), "Before@top") && Rdepth(data, 0) == 0
+//@   ensures @sim [C04,C08,C13] ok ==> isnum(data) && Rdepth(data, p) == 0 && (numfinal(Rq(data, p)) || (qis(Rq(data, p), "InValue.NumDot@top") && p >= 1 && data[p-1] == '.'))
+//@   ensures @sim [C04,C08,C13] ok ==> p == len(data) || !numcont(Rq(data, p), data[p])
+//@   ensures @sim [C04,C08,C13] ok && qis(Rq(data, p), "InValue.NumDot@top") ==> p == len(data) || !digit(data[p])
+//@   ensures @sim [C04,C08,C13] ok && numfinal(Rq(data, p)) ==> data[p-1] != '.'
+//@   ensures @sim [C04,C08,C13] !ok ==> !(accepts(data) && isnum(data))
+//@   loop 1 invariant @sim isnum(data) && Rdepth(data, p) == 0
+//@   loop 1 invariant @sim !sawdot ==> qis(Rq(data, p), "InValue.NumInt@top")
+//@   loop 1 invariant @sim sawdot && data[p-1] == '.' ==> qis(Rq(data, p), "InValue.NumDot@top")
+//@   loop 1 invariant @sim sawdot && data[p-1] != '.' ==> qis(Rq(data, p), "InValue.NumFrac@top")
+//@   loop 2 invariant @sim isnum(data) && Rdepth(data, p) == 0 && sawdigits
+//@   loop 2 invariant @sim qis(Rq(data, p), "InValue.NumExp@top") || (qis(Rq(data, p), "InValue.NumE@top", "InValue.NumESign@top") && p < len(data) && digit(data[p]))
+//@   ensures [C19,C20] ghost_alloc == old(ghost_alloc)
+//@   ensures 0 <= p && p <= len(data)
+//@   ensures [C13] ok ==> isnum(data)
+//@   loop 1 invariant 1 <= p && p <= len(data) && sawdigits && isnum(data)
+//@   loop 1 invariant [C19,C20] ghost_alloc == 0
+//@   loop 1 decreases len(data) - p
+//@   loop 2 invariant 1 <= p && p <= len(data) && isnum(data)
+//@   loop 2 invariant [C19,C20] ghost_alloc == 0
+//@   loop 2 decreases len(data) - p
+//
+//@ func atof64exact(mantissa, exp, neg) (f, ok)
+//@   ensures [C19,C20] ghost_alloc == old(ghost_alloc)
+//
+//@ func eiselLemire64(man, exp10, neg) (f, ok)
+//@   ensures [C19,C20] ghost_alloc == old(ghost_alloc)
+//
+//@ func (*decimal).set(a, data) (ok)
+//@   input data
+//@   sim value limit=10000 init=none pos=i
+//@   requires @sim qis(Rq(data, 0), "Before@top") && Rdepth(data, 0) == 0
+//@   requires @sim isnum(data) && numfinal(Rq(data, len(data))) && Rdepth(data, len(data)) == 0
+//@   ensures @sim [C04] ok
+//@   loop 1 invariant @sim Rdepth(data, i) == 0 && (i == 0 ==> !sawdot && !sawdigits)
+//@   loop 1 invariant @sim i == 1 && data[0] == '-' ==> !sawdot && !sawdigits
+//@   loop 1 invariant @sim !sawdigits ==> (i == 0 && data[0] != '-' && qis(Rq(data, i), "Before@top")) || (i == 1 && data[0] == '-' && qis(Rq(data, i), "InValue.NumMinus@top"))
+//@   loop 1 invariant @sim sawdigits && !sawdot ==> qis(Rq(data, i), "InValue.NumZero@top", "InValue.NumInt@top")
+//@   loop 1 invariant @sim sawdigits && sawdot ==> qis(Rq(data, i), "InValue.NumDot@top", "InValue.NumFrac@top")
+//@   loop 1 invariant @sim !sawdigits ==> !sawdot
+//@   loop 2 invariant @sim Rdepth(data, i) == 0 && sawdigits
+//@   loop 2 invariant @sim qis(Rq(data, i), "InValue.NumExp@top") || (qis(Rq(data, i), "InValue.NumE@top", "InValue.NumESign@top") && i < len(data) && digit(data[i]))
+//@   requires a != nil && 0 <= a.nd && a.nd <= 800
+//@   assigns *a
+//@   ensures [C19,C20] ghost_alloc == old(ghost_alloc)
+//@   ensures 0 <= a.nd && a.nd <= 800
+//@   loop 1 invariant 0 <= i && i <= len(data) && 0 <= a.nd && a.nd <= 800
+//@   loop 1 invariant [C19,C20] ghost_alloc == 0
+//@   loop 1 decreases len(data) - i
+//@   loop 2 invariant 0 <= i && i <= len(data) && 0 <= a.nd && a.nd <= 800
+//@   loop 2 invariant [C19,C20] ghost_alloc == 0
+//@   loop 2 decreases len(data) - i
+//
+//@ func (*decimal).floatBits(a) (b, overflow)
+//@   trusted memory safety and termination of the decimal shifting code (floatBits, Shift, leftShift, rightShift, trim, RoundedInteger) are not proved here: C04 proves these functions lock-step equivalent to Go 1.23.5 strconv's, whose safety is assumed
+//@   requires a != nil && 0 <= a.nd && a.nd <= 800
+//@   assigns *a
 //@   ensures [C19,C20] ghost_alloc == old(ghost_alloc)
